@@ -354,6 +354,8 @@ func MakeSimple(c Class, serial int) MV {
 		return Scalar{65536 + uint64(serial)}
 	case "u11":
 		return Scalar{1<<32 + uint64(serial)}
+	case "h": // half of what an inlined child array can hold at the array inline limit
+		return Str{StrOfSize((maxArr-17)/2, tag)}
 	case "s10":
 		return Str{StrOfSize(10, tag)}
 	case "mid":
